@@ -278,7 +278,12 @@ func attribute(jobs []Job, res []Result) *attribution {
 			if a.pairOnly[k] == nil {
 				a.pairOnly[k] = map[[2]string]bool{}
 			}
-			a.pairOnly[k][[2]string{ops[0], ops[1]}] = true
+			// unordered pair: the same two opcodes in another list order are the same pair
+			pr := [2]string{ops[0], ops[1]}
+			if pr[1] < pr[0] {
+				pr[0], pr[1] = pr[1], pr[0]
+			}
+			a.pairOnly[k][pr] = true
 		}
 	}
 	// per key: a greedy minimum vertex cover of the pair graph (largest degree first, ties by name). Every pair is
